@@ -56,10 +56,9 @@ type e2eComp struct{}
 
 func init() { components["e2e"] = &e2eComp{} }
 
-const (
-	e2eMarker   = "zz-end"
-	e2eDeadline = 6 * time.Second
-)
+const e2eMarker = "zz-end"
+
+var e2eDeadline = scaled(6 * time.Second)
 
 // ---------------------------------------------------------------- scenario
 
